@@ -194,6 +194,20 @@ def step (s : St) (line : String) : St × String :=
         let t := ModeTerm.run s.t itoks
         ({ s with w := { w with wire := [] }, t := t }, s!"{c.1}\t{c.2}\t{restoredVerdict s.t0 t}")
       | none => (s, bad3)
+  | ["startupfail"] =>
+      -- New failed half-way (reportWinsize returned an error after the alternate screen was entered and the modes
+      -- enabled) and returned (nil, err): model = start-up, then the lifecycle calls of that error exit as
+      -- regenerated from New (`Gen.Modes.newSequence`: after the round-4 repair `Close`); oracle: restored
+      if impl = "hang" then (s, "-\thang\tFAIL New never returns") else
+      if impl = "noerror" then (s, "-\t-\t-") else
+      match lex impl with
+      | some itoks =>
+        let w := VaxisModel.Model.Lifecycle.startupFailW s.env
+        let c := canon w.wire itoks
+        let t := ModeTerm.run s.t itoks
+        let v := if restored s.t0 t then "ok" else "FAIL a failed New (error after the terminal was set up, no handle returned) leaves the terminal unrestored:" ++ describe s.t0 t
+        ({ s with t := t }, s!"{c.1}\t{c.2}\t{v}")
+      | none => (s, bad3)
   | ["closeby", "signalframe"] =>
       -- forced schedule "kill signal mid-frame" (F404/F410): the Close run by the kill arm is held at the end of
       -- its Suspend while the main goroutine renders one more frame; judged by the mode terminal only
